@@ -9,6 +9,9 @@ name=$(basename "$(dirname "$patch")")-$(basename "$patch" .diff)
 out=/tmp/mut/$name; rm -rf "$out"; mkdir -p "$out/repo"
 (cd /repo && git ls-files -z | xargs -0 cp --parents -t "$out/repo") || exit 2
 (cd "$out/repo" && git init -q . 2>/dev/null; git apply "$patch") || { echo "$name: patch does not apply"; exit 2; }
+# a snapshot of the harness sources, so that edits made while a long
+# evaluation runs do not leak into it
+cp -r /verif/sim "$out/sim" && export VERIF_SIM="$out/sim"
 cd /verif
 for p in "$@"; do
   start=$(date +%s)
@@ -17,4 +20,4 @@ for p in "$@"; do
   v=$(grep -c '^VIOLATION' "$out/$p.log")
   echo "$name $p exit=$rc violations=$v $((end-start))s $(grep -m1 'rule=' "$out/$p.log" | cut -c1-200)"
 done
-rm -rf "$out/build" "$out/repo"
+rm -rf "$out/build" "$out/repo" "$out/sim"
